@@ -10,6 +10,9 @@ CLAIMS = {
  "C01": ("translation_validation",
    "Every program of three families is compiled by value.New().Generate and evaluated on three SYMBOLIC 64-bit int arguments; an independent reference (own parser for the language subset, lexically scoped tree-walking evaluator with closure capture, left-to-right call-by-value) runs on the same symbolic arguments inside the same engine; the outcomes must agree for every argument value on every path (error in both or deep-equal value: numbers by kind and value, lists by element sequence, maps by key/value set). Families: the binder x slot x context matrix (9 binder kinds incl. let/func/closure/if/switch/try/currying/map-field closure in 16 let-position slots incl. 1st/2nd/3rd call argument, method argument, list element, map value, static function argument, closure body, in 6 nesting contexts incl. nested closures, recursive func, captured outer local), 30 hand-written programs (recursion, currying, closures returned from functions and stored in maps, shadowing of arguments/constants by parameters), seeded random programs (60 quick / 1500 thorough).",
    "single operators, methods, static functions and index/member access on already evaluated operands are delegated by the reference to the library through one-operation programs (their meaning is C14/C07's subject); argument values: ints only (floats/strings/lists appear as program-internal values); program size bounded by the templates; error message texts are not compared"),
+ "C02": ("translation_validation",
+   "Every program of a constant-rich pool (chains mixing constants and variables for every operator incl. the commutative ones, string + chains, constant closures/lists/maps, if/switch with constant conditions, try, let-constants, counted pure and impure host functions) plus a sample of the C01 matrix with one argument replaced by a constant and seeded random programs is generated twice - value.New() as is and with SetOptimizer(nil) - and both functions are evaluated on the same SYMBOLIC arguments (ints; bools, integer-valued floats, pool strings as wrong-typed variants): equal outcome for every value (error in both or deep-equal), impure host function counters zero after Generate, equal after Eval and repeated exactly by a second Eval.",
+   "float chains only on integer-valued operands |x|<2^15 (regrouping is then exact; the property allows rounding differences otherwise); number-to-text conversions use pool values; the float/bool instantiations of the generic generator are C19's subject"),
  "C03": ("model_checking",
    "For 8 operator tables (prefix operator at lowest/middle/highest binary position or pure, spellings that are prefixes of one another, text aliases) the implementation's Parse is compared with an independent precedence-climbing reference parser on EVERY input string of up to 2-3 (thorough: 4-5) bytes over the table's alphabet (symbolic bytes, solver-decided), on all operator/prefix/parenthesis assignments of 3-operand skeletons (path enumeration) and on single-byte deletions/duplications/truncations of valid programs: error iff the reference rejects, identical AST otherwise, never a panic.",
    "bounded input length and table set; comfort mode, comments, keywords and string literals are outside this check (C15/C04); reference parser and lexer are part of the trusted base; ASCII alphabets"),
